@@ -15,7 +15,7 @@ import deribit_lib as L
 from common import Ctx
 
 PROPERTY = "C15"
-LEAN_MODULES = ["Proofs.C15", "Proofs.C15.Seq"]
+LEAN_MODULES = ["Proofs.C15", "Proofs.C15.Seq", "Proofs.C15.Float"]
 DRIVERS = ["driver_deribit"]
 RULE = ("random books (1-4 instruments, 0-12 levels a side, int and float sizes incl. emptied levels, prices on and off the 0.0005 grid, ETH and BTC "
         "steps) and sequences of 1-8 buys/sells inside one bar; buckets = (side, pricing mode market/limit-exact/limit-near/limit-edge/limit-usd "
@@ -106,51 +106,66 @@ def oracle_trade(ctx, rig_token, S, op, out, res, S2, acts, rep, bar_tracker=Non
     if mj["amount"] < Fraction(10) ** texp:
         v("below-min-accepted", f"amount {L.fmt(mj['amount'])} below the contract step was accepted")
     levels = ins[key]
-    # mark-relative cap
+    # mark-relative cap.  A level priced *exactly* at the cap is a tie that the 35-digit rounding of `multiple x Decimal(mark)` decides
+    # either way (1e-35 relative); both readings are accepted, a level beyond the tie band is not.
+    premium = sum((f[0] * f[1] for f in fills), Fraction(0))
+    EPS = Fraction(1, 10 ** 30)
     if mj["mult"] is not None:
         if side == "buy":
             cap = mj["mult"] * ins["mark"]
-            avail = [l for l in levels if l[0] < cap]
-            for f in fills:
-                if not any(price_str(l[0]) == f[0] for l in avail):
-                    v("cap-ignored", f"bought at {L.fmt(f[0])} although the cap is {L.fmt(cap)}")
+            cands = [[l for l in levels if l[0] < cap - abs(cap) * EPS], [l for l in levels if l[0] < cap + abs(cap) * EPS]]
+            what = f"the cap is {L.fmt(cap)}"
         else:
             flo = ins["mark"] / mj["mult"] if mj["mult"] != 0 else None
-            avail = [l for l in levels if flo is not None and l[0] > flo]
-            for f in fills:
-                if not any(price_str(l[0]) == f[0] for l in avail):
-                    v("cap-ignored", f"sold at {L.fmt(f[0])} although the floor is {flo}")
-    else:
-        avail = list(levels)
-    premium = sum((f[0] * f[1] for f in fills), Fraction(0))
-    if mode == "market":
-        ne = [l for l in avail if l[1] != 0]
-        best = sorted(ne, key=lambda l: l[0], reverse=(side == "sell"))
-        if len(fills) > len(best):
-            v("more-fills-than-levels", f"{len(fills)} fills from {len(best)} non-empty levels")
+            cands = [[l for l in levels if flo is not None and l[0] > flo + abs(flo) * EPS], [l for l in levels if flo is not None and l[0] > flo - abs(flo) * EPS]]
+            what = f"the floor is {flo}"
+        if cands[0] == cands[1]:
+            cands = cands[:1]
         else:
-            for i, f in enumerate(fills):
-                l = best[i]
-                if f[0] != price_str(l[0]):
-                    v("not-best-first", f"fill {i} at {L.fmt(f[0])} but the {i}-th best level is {L.fmt(price_str(l[0]))}")
-                    break
-                d = displayed(l[1], l[2])
-                if f[1] > d:
-                    v("over-displayed-size", f"took {L.fmt(f[1])} from a level showing {L.fmt(d)}")
-                if i + 1 < len(fills) and f[1] != d:
-                    v("level-skipped-partly", f"level {i} showing {L.fmt(d)} gave only {L.fmt(f[1])} before the next level was used")
+            ctx.count("cap_tie_levels")
     else:
-        want = mj["priceTok"] if mj["priceTok"] is not None else (mj["priceUsd"] / price_str(ins["underlying"]))
-        if len(fills) != 1:
-            v("limit-many-levels", f"a limit order produced {len(fills)} fills")
+        cands = [list(levels)]
+        what = ""
+
+    def judge(avail):
+        out = []
+        w = lambda k, msg: out.append((k, msg))  # noqa: E731
         for f in fills:
-            if not (abs(f[0] - want) <= MATCH * abs(want) + TOL):
-                v("limit-off-price", f"limit order at {L.fmt(Fraction(want))} filled at {L.fmt(f[0])}")
-            lv = [l for l in avail if price_str(l[0]) == f[0]]
-            if not lv:
-                v("limit-no-such-level", f"filled at {L.fmt(f[0])}, not a visible (allowed) level")
-            elif f[1] > max(displayed(lv[0][1], lv[0][2]), lv[0][1]):
-                v("over-displayed-size", f"took {L.fmt(f[1])} from a level showing {L.fmt(displayed(lv[0][1], lv[0][2]))}")
+            if mj["mult"] is not None and not any(price_str(l[0]) == f[0] for l in avail):
+                w("cap-ignored", f"{'bought' if side == 'buy' else 'sold'} at {L.fmt(f[0])} although {what}")
+        if mode == "market":
+            ne = [l for l in avail if l[1] != 0]
+            best = sorted(ne, key=lambda l: l[0], reverse=(side == "sell"))
+            if len(fills) > len(best):
+                w("more-fills-than-levels", f"{len(fills)} fills from {len(best)} non-empty levels")
+            else:
+                for i, f in enumerate(fills):
+                    l = best[i]
+                    if f[0] != price_str(l[0]):
+                        w("not-best-first", f"fill {i} at {L.fmt(f[0])} but the {i}-th best level is {L.fmt(price_str(l[0]))}")
+                        break
+                    d = displayed(l[1], l[2])
+                    if f[1] > d:
+                        w("over-displayed-size", f"took {L.fmt(f[1])} from a level showing {L.fmt(d)}")
+                    if i + 1 < len(fills) and f[1] != d:
+                        w("level-skipped-partly", f"level {i} showing {L.fmt(d)} gave only {L.fmt(f[1])} before the next level was used")
+        else:
+            want = mj["priceTok"] if mj["priceTok"] is not None else (mj["priceUsd"] / price_str(ins["underlying"]))
+            if len(fills) != 1:
+                w("limit-many-levels", f"a limit order produced {len(fills)} fills")
+            for f in fills:
+                if not (abs(f[0] - want) <= MATCH * abs(want) + TOL):
+                    w("limit-off-price", f"limit order at {L.fmt(Fraction(want))} filled at {L.fmt(f[0])}")
+                lv = [l for l in avail if price_str(l[0]) == f[0]]
+                if not lv:
+                    w("limit-no-such-level", f"filled at {L.fmt(f[0])}, not a visible (allowed) level")
+                elif f[1] > displayed(lv[0][1], lv[0][2]):
+                    w("over-displayed-size", f"took {L.fmt(f[1])} from a level showing {L.fmt(displayed(lv[0][1], lv[0][2]))}")
+        return out
+
+    verdicts = [judge(a) for a in cands]
+    for k, msg in min(verdicts, key=len):
+        v(k, msg)
     # fee and cash
     fee = round_step(min(TRADE_FEE * amt, MAX_FEE * premium), fexp)
     if res["fee"] != fee and not close(res["fee"], fee):
@@ -314,6 +329,8 @@ def directed_specs():
              "underlying": 1651.94, "delta": 0.52071, "gamma": 0.00342,
              "asks": [[0.0285, 5], [0.029, 605], [0.0295, 197], [0.03, 40], [0.0305, 18]],
              "bids": [[0.028, 51], [0.0275, 585], [0.027, 248], [0.0265, 24]]}]
+    tie = copy.deepcopy(base)
+    tie[0]["asks"] = [[0.0287, 5], [0.029, 605]]
     flt = copy.deepcopy(base)
     flt[0]["asks"] = [[0.0285, 5.0], [0.029, 605.5]]
     pos = [{"name": base[0]["name"], "expiry": 30000, "strike": 1650, "kind": "CALL", "amount": "2"}]
@@ -330,6 +347,8 @@ def directed_specs():
         mkb([{"type": "buy", "name": btc[0]["name"], "amount": Decimal("0.3")}]),
         mkb([{"type": "buy", "name": btc[0]["name"], "amount": Decimal("0.2")}, {"type": "buy", "name": btc[0]["name"], "amount": Decimal("0.1")},
              {"type": "sell", "name": btc[0]["name"], "amount": Decimal("0.3")}]),
+        # a level priced exactly at the cap (multiple 1.0, ask == mark): a tie decided by the 35-digit rounding of the product
+        mk(tie, "100", [], [{"type": "buy", "name": n, "amount": 3, "mult": 1.0}, {"type": "buy", "name": n, "amount": 3, "mult": 1.0, "priceTok": 0.0287}]),
         mk(base, "0.1", [], [{"type": "buy", "name": n, "amount": 10}]),
         mk(base, "1", [], [{"type": "sell", "name": n, "amount": 3}]),
         mk(base, "1", pos, [{"type": "sell", "name": n, "amount": 60}]),
